@@ -646,6 +646,16 @@ func (n *Node) options() []func(*dbft.Config[Hash]) {
 			dbft.WithSubscribeForTxs[Hash](func() {
 				n.subscribed = true
 				n.out(Out{Kind: OSubscribe})
+				if sc.WOFlipIdent-1 == n.ident && !n.flagWO && s.tape.Chance(n.stream(SFault), 1, 2) {
+					// the operator sets the flag right while the node waits for transactions
+					s.after(1, &Event{Kind: EvCustom, Fn: func() {
+						if !n.flagWO {
+							n.flagWO = true
+							s.fault("watch_only_flag_set_while_subscribed")
+							s.tracef("%s WATCH-ONLY FLAG SET", n)
+						}
+					}})
+				}
 			}),
 		)
 	}
